@@ -407,6 +407,9 @@ func suiteC06Except(env *Env, res *Result) {
 		if wantTwo {
 			withDef = true
 		}
+		// one case in six: the name is defined by the INCLUDING file only; the include file and an exclude file
+		// both write the reference, which stays literal text in both until the includer expands what is left
+		outerDef := !withDef && r.Chance(1, 6)
 		var flines []string
 		if withDef {
 			flines = append(flines, "##!> define d "+r.Pick([]string{"[0-9]", "q", "v+"}))
@@ -414,7 +417,7 @@ func suiteC06Except(env *Env, res *Result) {
 		nf := r.Range(1, 7)
 		for j := 0; j < nf; j++ {
 			w := r.Pick(words)
-			if strings.Contains(w, "{{d}}") && !withDef {
+			if strings.Contains(w, "{{d}}") && !withDef && !outerDef {
 				w = "plain"
 			}
 			flines = append(flines, w)
@@ -435,9 +438,12 @@ func suiteC06Except(env *Env, res *Result) {
 		}
 		// one case in six: two exclude files define the same name differently and both use it; the
 		// definitions map is shared, the first exclude file LISTED defines the name for all
-		conflict := !withDef && r.Chance(1, 6)
+		conflict := !withDef && !outerDef && r.Chance(1, 6)
 		if conflict {
 			flines = append(flines, "lsa", "lsb", "lsc")
+		}
+		if outerDef {
+			flines = append(flines, "x{{d}}", "stays")
 		}
 		ftext := strings.Join(flines, "\n") + "\n"
 		tree := Tree{"regex-assembly/include/": "", "regex-assembly/exclude/": "", "regex-assembly/include/f.ra": ftext}
@@ -447,6 +453,9 @@ func suiteC06Except(env *Env, res *Result) {
 		}
 		if conflict {
 			nx = r.Range(2, 4)
+		}
+		if outerDef && nx == 0 {
+			nx = 1
 		}
 		var xnames []string
 		var xentries [][]string
@@ -471,6 +480,9 @@ func suiteC06Except(env *Env, res *Result) {
 			}
 			if conflict {
 				xl = append([]string{"##!> define e " + string(rune('a'+k%3))}, append(xl, "ls{{e}}")...)
+			}
+			if outerDef && k == 0 {
+				xl = append(xl, "x{{d}}")
 			}
 			name := fmt.Sprintf("x%d", k)
 			dir := r.Pick([]string{"exclude", "exclude", "include"})
@@ -502,7 +514,7 @@ func suiteC06Except(env *Env, res *Result) {
 		var pairs []string
 		pm := map[string]string{}
 		if r.Chance(2, 3) {
-			pairs = append(pairs, "@", r.Pick([]string{"\"\"", "[\\s<>]", "x"}))
+			pairs = append(pairs, "@", r.Pick([]string{"\"\"", "[\\s<>]", "x", "\"x\"", "'='"}))
 			pm["@"] = pairs[1]
 			if r.Chance(1, 2) {
 				pairs = append(pairs, "~", r.Pick([]string{"\"\"", "[^\\s]", "y"}))
@@ -585,6 +597,9 @@ func suiteC06Except(env *Env, res *Result) {
 		pos := r.Intn(2)
 		build := func(mid []string) string {
 			var ls []string
+			if outerDef {
+				ls = append(ls, "##!> define d [0-9]")
+			}
 			if pos == 0 {
 				ls = append(ls, "keep")
 				ls = append(ls, mid...)
@@ -677,7 +692,12 @@ func suiteC07Defs(env *Env, res *Result) {
 	var cases []*metaCase
 	for i := 0; i < n; i++ {
 		nd := r.Range(1, 4)
-		names := defNames[:nd]
+		permN := append([]string{}, defNames...)
+		for a := len(permN) - 1; a > 0; a-- {
+			b := r.Intn(a + 1)
+			permN[a], permN[b] = permN[b], permN[a]
+		}
+		names := permN[:nd] // any order: the chain must not depend on how the names sort
 		vals := map[string]string{}
 		for j, nm := range names {
 			v := r.Pick([]string{"[a-z]+", "\\d{1,3}", "(?:p|q)", "w", "x{2}", "\\.", "[^\"]", "a|b", "x{{nope}}y", "{{nope}}"})
